@@ -26,6 +26,19 @@ def load_findings():
     return out
 
 
+def _prune_replay_dirs(max_age_s=6 * 3600):
+    """Directories replays/<pid>.<process id> of runs without evidence, older than a few hours."""
+    top = os.path.join(VERIF, 'replays')
+    try:
+        for n in os.listdir(top):
+            p = os.path.join(top, n)
+            if '.' in n and os.path.isdir(p) and time.time() - os.path.getmtime(p) > max_age_s:
+                import shutil
+                shutil.rmtree(p, ignore_errors=True)
+    except OSError:
+        pass
+
+
 class Ctx:
     def __init__(self, pid, tier='quick', seed=0, write_evidence=True):
         self.pid = pid
@@ -43,10 +56,13 @@ class Ctx:
         self.findings = [f for f in load_findings() if f.get('property') == pid]
         self.write_evidence = write_evidence
         self._distinct = set()
-        rdir = os.path.join(VERIF, 'replays', pid)
-        if os.path.isdir(rdir):
-            for n in os.listdir(rdir):
-                os.remove(os.path.join(rdir, n))
+        # replay files: replays/<pid>/ (emptied first) for the run that writes the evidence; a run with --no-evidence gets
+        # a directory of its own, so that concurrent runs of one property do not destroy each other's files
+        self.rdir = os.path.join(VERIF, 'replays', pid if write_evidence else '%s.%d' % (pid, os.getpid()))
+        if os.path.isdir(self.rdir):
+            for n in os.listdir(self.rdir):
+                os.remove(os.path.join(self.rdir, n))
+        _prune_replay_dirs()
 
     # ---- accounting -------------------------------------------------
     @property
@@ -118,7 +134,7 @@ class Ctx:
         if key in self.violations:
             self.violations[key]['count'] += 1
             return
-        rdir = os.path.join(VERIF, 'replays', self.pid)
+        rdir = self.rdir
         os.makedirs(rdir, exist_ok=True)
         name = hashlib.sha1(key.encode()).hexdigest()[:10] + '.json'
         path = os.path.join(rdir, name)
